@@ -3580,6 +3580,9 @@ tsk_treeseq_branch_allele_frequency_spectrum(const tsk_treeseq_t *self,
             tj++;
             u = edge_child[h];
             v = edge_parent[h];
+            /* u had no branch since its last update: nothing to add, but the
+             * new branch must only be counted from here on */
+            last_update[u] = t_left;
             parent[u] = v;
             branch_length[u] = node_time[v] - node_time[u];
             while (v != TSK_NULL) {
